@@ -130,13 +130,18 @@ class Debugger:
 
     def location_to_instruction_number(self, b: str) -> int:
         """Resolve a user-supplied location string into an instruction number."""
+        in_program = 0 <= self.vm.pc < len(self.program.code)
         if b == ".":
+            if not in_program:
+                raise ValueError("the program counter is outside the program.")
             return self.vm.pc
 
         if ":" in b:
             path, lineno = b.split(":", maxsplit=1)
         else:
-            path = self.op().loc.path
+            # Line numbers without a path refer to the file of the current operation, or
+            # of the first operation once execution has left the program.
+            path = self.op(self.vm.pc if in_program else 0).loc.path
             lineno = b
 
         try:
